@@ -41,6 +41,11 @@ pub struct Case {
     /// the ceremonies come from an Android app origin (asset link for example.com) instead of the web origin
     #[serde(default)]
     pub android: bool,
+    /// 0: no.  1, 2: while the user step of the registration is pending, the store's capability changes
+    /// from (cap + during) % 3 to `cap` (e.g. the user picks another vault in the consent prompt).
+    /// What is stored and what credProps says must still agree.
+    #[serde(default)]
+    pub during: u8,
 }
 fn cap_of(c: u8) -> Cap {
     match c {
@@ -66,17 +71,22 @@ pub fn cases() -> Vec<Case> {
                                 // the wrappers are spread over the configuration cells, and every
                                 // residentKey x capability cell meets every wrapper with default configuration
                                 let wrap = (hmac + prf + u8::from(counter)) % 4;
-                                v.push(Case { cap, resident_key, require_resident_key, cred_props, ctap: false, rk: false, cfg, prf, wrap, prior: 0, android: false });
+                                v.push(Case { cap, resident_key, require_resident_key, cred_props, ctap: false, rk: false, cfg, prf, wrap, prior: 0, android: false, during: 0 });
                                 if wrap == 0 {
-                                    v.push(Case { cap, resident_key, require_resident_key, cred_props, ctap: false, rk: false, cfg, prf, wrap, prior: 0, android: true });
+                                    v.push(Case { cap, resident_key, require_resident_key, cred_props, ctap: false, rk: false, cfg, prf, wrap, prior: 0, android: true, during: 0 });
+                                    if cred_props == 2 {
+                                        for during in 1..3u8 {
+                                            v.push(Case { cap, resident_key, require_resident_key, cred_props, ctap: false, rk: false, cfg, prf, wrap, prior: 0, android: false, during });
+                                        }
+                                    }
                                 }
                                 if hmac == 0 && prf == 0 && !counter {
                                     for wrap in 1..4u8 {
-                                        v.push(Case { cap, resident_key, require_resident_key, cred_props, ctap: false, rk: false, cfg, prf, wrap, prior: 0, android: false });
+                                        v.push(Case { cap, resident_key, require_resident_key, cred_props, ctap: false, rk: false, cfg, prf, wrap, prior: 0, android: false, during: 0 });
                                     }
                                     for prior in 1..3u8 {
                                         for wrap in [0u8, 1] {
-                                            v.push(Case { cap, resident_key, require_resident_key, cred_props, ctap: false, rk: false, cfg, prf, wrap, prior, android: false });
+                                            v.push(Case { cap, resident_key, require_resident_key, cred_props, ctap: false, rk: false, cfg, prf, wrap, prior, android: false, during: 0 });
                                         }
                                     }
                                 }
@@ -90,10 +100,10 @@ pub fn cases() -> Vec<Case> {
             for (hmac, hmac_mc) in [(0u8, false), (2, true)] {
                 let cfg = super::common::AuthCfg { counter: hmac != 0, id_len: (hmac != 0).then_some(32), hmac, hmac_mc };
                 for wrap in 0..4u8 {
-                    v.push(Case { cap, resident_key: 0, require_resident_key: false, cred_props: 0, ctap: true, rk, cfg, prf: 0, wrap, prior: 0, android: false });
+                    v.push(Case { cap, resident_key: 0, require_resident_key: false, cred_props: 0, ctap: true, rk, cfg, prf: 0, wrap, prior: 0, android: false, during: 0 });
                 }
                 for prior in 1..3u8 {
-                    v.push(Case { cap, resident_key: 0, require_resident_key: false, cred_props: 0, ctap: true, rk, cfg, prf: 0, wrap: 0, prior, android: false });
+                    v.push(Case { cap, resident_key: 0, require_resident_key: false, cred_props: 0, ctap: true, rk, cfg, prf: 0, wrap: 0, prior, android: false, during: 0 });
                 }
             }
         }
@@ -142,6 +152,12 @@ where
     // ---- registration
     let (ok, cred_props_out, new_id): (bool, Option<Option<bool>>, Option<Vec<u8>>);
     let mut client = Client::new(auth);
+    if c.during != 0 {
+        // the ceremony starts under another capability; the final one arrives during the prompt
+        store.0.lock().unwrap().cap = cap_of((c.cap + c.during) % 3);
+        let (s2, final_cap) = (store.clone(), cap);
+        log.set_prompt_hook(std::sync::Arc::new(move || s2.0.lock().unwrap().cap = final_cap));
+    }
     if c.prior != 0 {
         // earlier life of this authenticator under another store capability
         store.0.lock().unwrap().cap = cap_of((c.cap + c.prior) % 3);
@@ -212,6 +228,16 @@ where
     let events = log.take();
     let saves: Vec<&Event> = events.iter().filter(|e| matches!(e, Event::Save { .. })).collect();
     let stored = store.0.lock().unwrap().recs_ordered();
+    if c.during != 0 {
+        // the resident-key option was decided under the earlier capability, which is fine; what is
+        // demanded is that credProps and the assertions tell the truth about what was stored
+        let Some(rec) = stored.last().cloned().filter(|_| ok && stored.len() > stored_before) else { return (fs, "capability-changed-during-prompt:not-stored".into()) };
+        match cred_props_out {
+            Some(Some(v)) if v != rec.handle.is_some() => bad("cred-props-untruthful", format!("the store's capability changed during the prompt: credProps.rk = {v} but the stored credential is discoverable = {}", rec.handle.is_some())),
+            _ => {}
+        }
+        return (fs, format!("capability-changed-during-prompt:discoverable={}", rec.handle.is_some()));
+    }
     let refuse = rk && cap == Cap::OnlyNonDiscoverable;
     let outcome;
     if refuse {
